@@ -10,7 +10,8 @@ package main
 //       of seconds before S3Store sees anything.
 //   sftp.store / sftp.get / sftp.has : the real desync.SFTPStore (ONE pooled connection) against pkg/sftp's server
 //       (a child process, as in c03.go / c16.go), with obstacles in the served file system: the fan-out directory
-//       missing, or a regular file in its place, the store's root gone, a directory in place of the chunk file.
+//       missing, or a regular file in its place, the store's root gone, a directory in place of the chunk file, and a
+//       server whose files cannot grow beyond k bytes (RLIMIT_FSIZE in the server process: `io.Copy` fails after k bytes).
 //       Compared: the result, the content under the final name, what is left under a temp name (final name followed
 //       by digits).  After every operation — failed or not — a further request must be answered: a connection that
 //       was not put back would block it for ever (`pool=blocked`).
@@ -24,8 +25,11 @@ import (
 	"math/rand"
 	"net/url"
 	"os"
+	"os/signal"
 	"path/filepath"
+	"strconv"
 	"strings"
+	"syscall"
 	"time"
 
 	"github.com/folbricht/desync"
@@ -172,6 +176,16 @@ func implS3Has(line string) string {
 
 // ---------------------------------------------------------------------------------------------------------------
 
+// sftpServerLimits runs in the SFTP server child: VH_SFTP_FSIZE=k makes every file of the served tree refuse to grow
+// beyond k bytes — a write is cut short and the rest fails with EFBIG, the way a full disk or a quota does
+func sftpServerLimits() {
+	if v := os.Getenv("VH_SFTP_FSIZE"); v != "" {
+		k, _ := strconv.ParseUint(v, 10, 64)
+		signal.Ignore(syscall.SIGXFSZ)
+		syscall.Setrlimit(syscall.RLIMIT_FSIZE, &syscall.Rlimit{Cur: k, Max: k})
+	}
+}
+
 // sftpCase opens a store with ONE connection on a fresh directory; `after` runs when the connection stands
 func sftpCase(uncompressed, skip bool) (*desync.SFTPStore, string, error) {
 	wrap, err := sftpWrapper(remoteDir())
@@ -221,7 +235,11 @@ func implSftpStore(line string) string {
 		chunk := desync.NewChunk(data)
 		cid := chunk.ID()
 		sid := cid.String()
+		if strings.HasPrefix(a["scen"], "disk-full") { // the server's files cannot grow beyond copyfail= bytes
+			os.Setenv("VH_SFTP_FSIZE", a["copyfail"])
+		}
 		ss, dir, err := sftpCase(true, false)
+		os.Unsetenv("VH_SFTP_FSIZE")
 		if err != nil {
 			return "setup: " + err.Error()
 		}
@@ -240,6 +258,11 @@ func implSftpStore(line string) string {
 			os.WriteFile(fan, []byte("in the way"), 0644)
 		case "no-root":
 			os.RemoveAll(dir)
+		case "disk-full":
+			os.Mkdir(fan, 0755)
+		case "disk-full-replace":
+			os.Mkdir(fan, 0755)
+			os.WriteFile(final, unhx(a["pre"]), 0644)
 		case "final-is-dir":
 			os.MkdirAll(filepath.Join(final, "occupied"), 0755)
 		case "readonly-dir":
@@ -411,8 +434,12 @@ func runRemoteStoresWrite(cfg Config, rep *Report, rng *rand.Rand) {
 	}
 	if _, err := sftpWrapper(remoteDir()); err == nil {
 		for round := 0; round < cfg.N(6, 30); round++ {
-			for _, s := range scens {
-				data := randBytes(rng, 1+rng.Intn(2000))
+			k := rng.Intn(120)
+			all := append(append([]sc{}, scens...),
+				sc{"disk-full", fmt.Sprintf("exists=1 create1=1 mkdir=0 create2=1 copyfail=%d remove=1 close=1 rename=1", k), "-"},
+				sc{"disk-full-replace", fmt.Sprintf("exists=1 create1=1 mkdir=0 create2=1 copyfail=%d remove=1 close=1 rename=1", k/8), hx([]byte("an older object"))})
+			for _, s := range all {
+				data := randBytes(rng, 200+rng.Intn(2000))
 				line := fmt.Sprintf("sftp.store scen=%s %s data=%s pre=%s", s.scen, s.env, hx(data), s.pre)
 				rep.Count(line, strings.Contains(s.env, "=0"), "remote:sftp.store", "remote:sftp.store/"+s.scen)
 				rep.Compare(m, line, implSftpStore, nil)
